@@ -215,9 +215,10 @@ let do_aio (cmd : string) =
            | "AOP" -> TOp (aop ())
            | "ARUN" -> TRun (zz ())
            | t -> raise (Parse ("aio op: " ^ t))) in
+       let tie = a_step_ties s o in
        let (s', r) = a_step s o in
        astate := Some s';
-       print_res r; print_astate s')
+       print_res r; if tie then print_string "TIE\n"; print_astate s')
 
 let state : sched option ref = ref None
 
